@@ -12,6 +12,15 @@ theorem pres_wrA {s s' : St} {a : Act} (hI : Inv s) (h : step .repaired s a = so
   | fire t0 =>
     simp only [step] at h
     (repeat' (split at h)) <;> (try cases h) <;> (simp only [St.setPc, St.setObj]; (have i_wrA := hI.wrA; have i_wrB := hI.wrB; have i_refs := hI.refs; grind [wslot, PC.ref]))
+  | corrupt d =>
+    simp only [step] at h
+    (repeat' (split at h)) <;> (try cases h) <;> (simp only []; (have i_wrA := hI.wrA; have i_wrB := hI.wrB; have i_refs := hI.refs; grind [wslot, PC.ref]))
+  | block d =>
+    simp only [step] at h
+    (repeat' (split at h)) <;> (try cases h) <;> (simp only []; (have i_wrA := hI.wrA; have i_wrB := hI.wrB; have i_refs := hI.refs; grind [wslot, PC.ref]))
+  | repair d =>
+    simp only [step] at h
+    (repeat' (split at h)) <;> (try cases h) <;> (simp only []; (have i_wrA := hI.wrA; have i_wrB := hI.wrB; have i_refs := hI.refs; grind [wslot, PC.ref]))
   | run t0 =>
     simp only [step] at h
     split at h
